@@ -94,7 +94,7 @@ pub fn sheet_strategy(name: String) -> impl Strategy<Value = OSheet> {
     })
 }
 
-fn case_strategy() -> impl Strategy<Value = Case> {
+pub fn case_strategy() -> impl Strategy<Value = Case> {
     let zip = (proptest::collection::vec(0u8..5, 0..4), proptest::collection::vec(any::<u8>(), 0..4)).prop_map(|(methods, order)| ZipKnobs { methods, order, name_case: 0, comment: false });
     (1usize..3, any::<u8>(), any::<bool>(), any::<bool>(), zip).prop_flat_map(|(n, alt, pretty, decl, zip)| {
         let names = ["Sheet1", "Zwei & 2"];
